@@ -170,6 +170,71 @@ Proof.
   intros H. destruct (delete_good n [] {| removed := []; failed := false |} H) as (R & _); [intros p []|exact R].
 Qed.
 
+(* ---- the failure flag: set exactly when some matched directory could not be emptied ---- *)
+(* a matched directory below (or at) rp whose entries are not all gone *)
+Fixpoint stuck (rp : rpath) (n : node) : bool :=
+  match n with
+  | File => false
+  | Dir ch => (fix go (l : list (name * node)) : bool :=
+                 match l with [] => false | (nm, x) :: l' => stuck (nm :: rp) x || go l' end) ch
+              || (M rp && negb (snd (gone_list rp ch)))
+  end.
+Definition stuck_list (rp : rpath) := fix go (l : list (name * node)) : bool :=
+  match l with [] => false | (nm, x) :: l' => stuck (nm :: rp) x || go l' end.
+Lemma stuck_dir rp ch : stuck rp (Dir ch) = stuck_list rp ch || (M rp && negb (snd (gone_list rp ch))).
+Proof. reflexivity. Qed.
+
+Definition FailOk (n : node) : Prop := forall rp s, wf n -> fresh rp s ->
+  failed (delete_run M rp n s) = failed s || stuck rp n.
+
+Lemma children_fail rp : forall l, Forall (fun x => FailOk (snd x)) l -> NoDup (map fst l) -> wf_list l ->
+  forall s, (forall k, In k (map fst l) -> fresh (k :: rp) s) ->
+  failed (fold_left (delete_step M) (posto_list rp l) s) = failed s || stuck_list rp l.
+Proof.
+  induction l as [|[nm x] l IH]; intros HF Hnd Hwf s Hfr.
+  - cbn. now rewrite orb_false_r.
+  - inversion HF as [|? ? Fx Fl]; subst. cbn [map fst] in Hnd. inversion Hnd as [|? ? Hnin Hnd']; subst.
+    destruct Hwf as [Wx Wl]. cbn [snd] in Fx.
+    destruct (delete_good x (nm :: rp) s Wx (Hfr nm (or_introl eq_refl))) as (R1 & U1 & _).
+    cbn [posto_list]. rewrite delete_run_app. fold (delete_run M (nm :: rp) x s).
+    set (s1 := delete_run M (nm :: rp) x s) in *.
+    assert (Hfr1 : forall k, In k (map fst l) -> fresh (k :: rp) s1).
+    { intros k Hk p Hp Hu. rewrite R1 in Hp. apply in_app_or in Hp as [Hp|Hp].
+      - exact (Hfr k (or_intror Hk) p Hp Hu).
+      - rewrite Forall_forall in U1. specialize (U1 p Hp).
+        assert (nm = k) by (eapply under_sibling; eauto). subst. contradiction. }
+    rewrite (IH Fl Hnd' Wl s1 Hfr1). unfold s1. rewrite (Fx (nm :: rp) s Wx (Hfr nm (or_introl eq_refl))).
+    cbn [stuck_list]. now rewrite orb_assoc.
+Qed.
+
+Theorem fail_ok : forall n, FailOk n.
+Proof.
+  induction n as [|ch IH] using node_ind2; intros rp s Hwf Hfr.
+  - unfold delete_run. cbn [posto fold_left delete_step stuck]. destruct (M rp); cbn [failed]; now rewrite orb_false_r.
+  - rewrite wf_dir in Hwf. destruct Hwf as [Hnd Hwl].
+    assert (Hfrk : forall k, In k (map fst ch) -> fresh (k :: rp) s).
+    { intros k _ p Hp Hu. apply (Hfr p Hp). eapply under_cons; eauto. }
+    assert (HG : Forall (fun x => Good (snd x)) ch) by (apply Forall_forall; intros y _; apply delete_good).
+    destruct (children_good rp ch HG Hnd Hwl s Hfrk) as (R & U & S).
+    pose proof (children_fail rp ch IH Hnd Hwl s Hfrk) as F.
+    unfold delete_run. rewrite posto_dir, delete_run_app. cbn [fold_left].
+    set (s1 := fold_left (delete_step M) (posto_list rp ch) s) in *.
+    assert (Hempty : forallb (fun k => mem (k :: rp) (removed s1)) (map fst ch) = snd (gone_list rp ch)).
+    { apply eq_true_iff_eq. rewrite forallb_forall, S. split; intros H k Hk.
+      - specialize (H k Hk). apply mem_In in H. rewrite R in H. apply in_app_or in H as [H|H]; [|exact H].
+        exfalso. apply (Hfr _ H). apply under_cons with k. apply under_refl.
+      - apply mem_In. rewrite R. apply in_or_app. right. now apply H. }
+    rewrite stuck_dir. cbn [delete_step]. rewrite Hempty.
+    destruct (M rp); cbn [andb].
+    + destruct (snd (gone_list rp ch)); cbn [failed negb]; rewrite ?F, ?orb_false_r, ?orb_true_r; reflexivity.
+    + now rewrite F, orb_false_r.
+Qed.
+(* find's exit status reports a failure exactly when some matched directory could not be emptied; the walk goes on either way
+   (delete_exact holds whatever fails) *)
+Theorem delete_failure n : wf n ->
+  failed (delete_run M [] n {| removed := []; failed := false |}) = stuck [] n.
+Proof. intros H. rewrite (fail_ok n [] {| removed := []; failed := false |} H); [reflexivity|intros p []]. Qed.
+
 (* nothing that was not matched is ever removed *)
 Theorem gone_matched : forall n rp, Forall (fun p => M p = true) (fst (gone M rp n)).
 Proof.
